@@ -27,9 +27,7 @@ unsafe impl<L: Lockable> RawLock for OwnedLockCollection<L> {
 
 	unsafe fn raw_unlock_write(&self) {
 		let locks = utils::get_locks_unsorted(&self.data);
-		for lock in locks {
-			lock.raw_unlock_write();
-		}
+		utils::attempt_to_recover_writes_from_panic(&locks)
 	}
 
 	unsafe fn raw_read(&self) {
@@ -43,9 +41,7 @@ unsafe impl<L: Lockable> RawLock for OwnedLockCollection<L> {
 
 	unsafe fn raw_unlock_read(&self) {
 		let locks = utils::get_locks_unsorted(&self.data);
-		for lock in locks {
-			lock.raw_unlock_read();
-		}
+		utils::attempt_to_recover_reads_from_panic(&locks)
 	}
 }
 
